@@ -281,7 +281,7 @@ CLAIMS = {
           "numeric-looking text, categorical with an unused category, and pairs of columns of different kinds whose directory "
           "texts coincide) in hive and drill layouts."),
     design_ref="DESIGN.md section 5 C08, section 10",
-    note=("Bounds: 4-5 rows, keys {missing,1,2,3}, one and two partition columns, 3-5 offset lists; kinds rotated over the "
+    note=("Bounds: 4-5 rows, keys {missing,1,2,3}, one and two partition columns, 3-5 offset lists; three partition columns on 3 rows (keys {missing,1,2} x {1,2} x {1,2}, 3 offset lists, six kind triples); kinds rotated over the "
           "cases in quick, every kind per case in thorough. Drill: the directory text is accepted in val_to_num's reading. "
           "A write that raises because a row group holds only rows with missing keys is accepted (pandas groupby)."),
     technique="TLA+ spec of partition routing + typed-path case analysis; TLC enumeration; spec->code replay"),
